@@ -491,4 +491,70 @@ theorem consAll_link {s : St} (inv : TreeInv s) (c : ConsAll s) (src dst : RPath
   rw [hlo] at this
   exact this
 
+/-! ### plain creates and file deletes -/
+
+/-- deleting a FILE (any flags) keeps every identity consistent -/
+theorem consAll_delete_file {s : St} (inv : TreeInv s) (c : ConsAll s) (p : RPath) (r i dc : Bool)
+    (hfile : ∀ o, find s p = some o → o.isDir = false) : ConsAll (step s (.delete p r i dc)).1 := by
+  simp only [step]
+  cases p with
+  | nil => simpa [deleteEntry] using c
+  | cons n par =>
+    cases hf : find s (n :: par) with
+    | none => simpa [deleteEntry, hf] using c
+    | some o =>
+      rcases find_stored inv hf with ⟨ex, hm, _⟩
+      have := deleteEntry_file hf (hfile o hf) r dc
+      rcases hde : deleteEntry s (n :: par) r dc with ⟨s', r', d⟩
+      rw [hde] at this
+      simp only at this ⊢
+      rw [this]
+      exact consAll_deleteOne inv c hm hf
+
+/-- creating / overwriting with a plain entry at a path that does not hold a linked name keeps every identity consistent -/
+theorem consAll_create_plain {s : St} (inv : TreeInv s) (c : ConsAll s) (p : RPath) (e : Entry) (x : Bool)
+    (he : e.hl = 0) (hp : ∀ ex, (p, ex) ∈ s.ents → ex.hl = 0) : ConsAll (step s (.create p e x)).1 := by
+  simp only [step]
+  have goal : ConsAll (createEntry s p e x).1 := by
+    cases p with
+    | nil => simpa [createEntry] using c
+    | cons n par =>
+      cases hf : find s (n :: par) with
+      | none =>
+        simp only [createEntry, hf]
+        have F := ensureParent_frame e par s inv
+        have I3 := inv_ensureParent e par s inv
+        rcases hr : ensureParent e par s with ⟨s1, b⟩
+        rw [hr] at F I3
+        cases b with
+        | false => exact consAll_of_frame c fun h hh => ⟨kvGet_congr F.1 h, F.2 h hh⟩
+        | true =>
+          simp only
+          refine consAll_of_frame c fun h hh => ⟨?_, ?_⟩
+          · rw [kvGet_congr (kv_wInsert_plain _ _ _ he), kvGet_congr F.1]
+          · have habs : ∀ y, (n :: par, y) ∉ s1.ents := by
+              intro y hy
+              exact find_none inv hf y ((I3.2.2 (n :: par, y) (by simp)).mp hy)
+            rw [ents_wInsert, nameCount_put_of_absent habs, F.2 h hh]
+            have : e.hl ≠ h := by omega
+            simp [this]
+      | some o =>
+        rcases find_stored inv hf with ⟨ex, hm, _⟩
+        simp only [createEntry, hf]
+        split
+        · exact c
+        · split
+          · exact c
+          · refine consAll_of_frame c fun h hh => ⟨?_, ?_⟩
+            · rw [kvGet_congr (kv_wInsert_plain _ _ _ he)]
+            · have := nameCount_put_of_mem (e := e) inv.nodup hm h
+              have h1 : ex.hl ≠ h := by have := hp ex hm; omega
+              have h2 : e.hl ≠ h := by omega
+              simp only [h1, h2, if_false] at this
+              rw [ents_wInsert]
+              omega
+  rcases hc : createEntry s p e x with ⟨s', r, q⟩
+  rw [hc] at goal
+  exact goal
+
 end SwV.Lemmas.C21
